@@ -156,13 +156,15 @@ def _dyck(n):
     return out
 
 
-def _scan_semantics(db, chk, mod, f, make_events, root_of, upto=4):
+def _scan_semantics(db, chk, mod, f, make_events, root_of, upto=None):
     """the stack scan of a builder decided by ABSTRACT RUNS: the statements from the stack's initialisation to the end of the scan loop are evaluated
     on every well-nested endpoint sequence of up to `upto` events (one of them of zero duration), with _add_edge hooked; the edges must be
     (innermost event open at that moment | root, event) in opening order.  Returns True / False / None (not understood); reports one obligation."""
     import copy
     from ..core.interp import Interp
     from ..core.values import Obj
+    if upto is None:
+        upto = 6 if chk.tier == "thorough" else 4          # thorough tier: all 196 well-nested sequences of up to six events
     lp = _stack_loop(f)[0] or _scan_loop(f)          # the loop that pushes and pops a local stack; else the one loop that adds edges (the stack may live in a helper object)
     where = mod.loc(f)
     if lp is None or not isinstance(lp.iter, ast.Name):
